@@ -125,7 +125,7 @@ impl Run {
             cwd: cd.tree(),
             stdin: vec![],
             env: vec![],
-            timeout: Duration::from_secs(60),
+            timeout: Duration::from_secs(DEFAULT_TIMEOUT_S.load(std::sync::atomic::Ordering::Relaxed)),
         };
         r = r
             .env("HOME", cd.base.join("home"))
@@ -226,7 +226,12 @@ impl Run {
             match child.try_wait() {
                 Ok(Some(st)) => break Some(st),
                 Ok(None) => {
-                    if start.elapsed() > self.timeout {
+                    let limit = if HANG_SEEN.load(std::sync::atomic::Ordering::Relaxed) {
+                        self.timeout.min(Duration::from_secs(4))
+                    } else {
+                        self.timeout
+                    };
+                    if start.elapsed() > limit {
                         timed_out = true;
                         deadlocked = quiescent(child.id());
                         let _ = child.kill();
@@ -265,41 +270,59 @@ pub fn os_bytes(s: &OsStr) -> Vec<u8> {
     s.as_bytes().to_vec()
 }
 
-/// Quiescence detector: samples /proc/<pid>/task/*/stat for a few seconds. Returns true when no
-/// thread consumed CPU time, all threads are sleeping (state S) and the process has no children.
+/// Set once a run was proven hung; later watchdogs are shortened (the proof stays the same).
+/// Default watchdog in seconds for fclones runs (a check may lower it).
+pub static DEFAULT_TIMEOUT_S: std::sync::atomic::AtomicU64 = std::sync::atomic::AtomicU64::new(60);
+
+pub static HANG_SEEN: std::sync::atomic::AtomicBool = std::sync::atomic::AtomicBool::new(false);
+
+/// Quiescence detector. fclones keeps a pure user-space spinning thread alive whenever a hidden
+/// progress bar exists, so "all threads asleep" is too strict. A process is declared hung when,
+/// over a 5 s window: it has no child processes, its I/O counters (syscr, syscw, rchar, wchar)
+/// do not move, and no thread performs a voluntary context switch (i.e. nobody blocks and wakes
+/// up, nobody makes a system call that sleeps); threads may only be asleep or spinning.
 fn quiescent(pid: u32) -> bool {
-    fn sample(pid: u32) -> Option<(u64, bool)> {
-        let mut total = 0u64;
-        let mut all_sleeping = true;
+    fn io(pid: u32) -> Option<Vec<u64>> {
+        let s = std::fs::read_to_string(format!("/proc/{}/io", pid)).ok()?;
+        Some(
+            s.lines()
+                .filter(|l| l.starts_with("syscr") || l.starts_with("syscw") || l.starts_with("rchar") || l.starts_with("wchar"))
+                .filter_map(|l| l.split_whitespace().nth(1)?.parse().ok())
+                .collect(),
+        )
+    }
+    fn vol(pid: u32) -> Option<Vec<(String, u64)>> {
+        let mut v = vec![];
         let rd = std::fs::read_dir(format!("/proc/{}/task", pid)).ok()?;
         for t in rd.filter_map(|e| e.ok()) {
-            let s = std::fs::read_to_string(t.path().join("stat")).ok()?;
-            let rest = s.rsplit_once(')')?.1;
-            let f: Vec<&str> = rest.split_whitespace().collect();
-            if f.len() < 14 {
-                return None;
-            }
-            if f[0] != "S" {
-                all_sleeping = false;
-            }
-            total += f[11].parse::<u64>().unwrap_or(0) + f[12].parse::<u64>().unwrap_or(0);
+            let s = std::fs::read_to_string(t.path().join("status")).ok()?;
+            let n = s
+                .lines()
+                .find(|l| l.starts_with("voluntary_ctxt_switches"))
+                .and_then(|l| l.split_whitespace().nth(1))
+                .and_then(|x| x.parse().ok())
+                .unwrap_or(0);
+            v.push((t.file_name().to_string_lossy().to_string(), n));
         }
-        Some((total, all_sleeping))
+        v.sort();
+        Some(v)
     }
     let children = std::fs::read_to_string(format!("/proc/{}/task/{}/children", pid, pid)).unwrap_or_default();
     if !children.trim().is_empty() {
         return false;
     }
-    let Some((t0, s0)) = sample(pid) else { return false };
-    if !s0 {
-        return false;
-    }
+    let (Some(io0), Some(v0)) = (io(pid), vol(pid)) else { return false };
     for _ in 0..10 {
         std::thread::sleep(Duration::from_millis(500));
-        match sample(pid) {
-            Some((t, s)) if s && t == t0 => {}
+        match (io(pid), vol(pid)) {
+            (Some(i), Some(v)) if i == io0 && v == v0 => {}
             _ => return false,
         }
     }
+    let children = std::fs::read_to_string(format!("/proc/{}/task/{}/children", pid, pid)).unwrap_or_default();
+    if !children.trim().is_empty() {
+        return false;
+    }
+    HANG_SEEN.store(true, std::sync::atomic::Ordering::Relaxed);
     true
 }
